@@ -40,9 +40,17 @@ structure RepeatPot where
   hMask : Nat
   deriving Repr, DecidableEq
 
-/-- tex.rs:102-108 `SamplerRepeatPot::new`: `let w = tex.width() as u32; assert!(w.is_power_of_two())`,
-masks `w - 1`, `h - 1`. -/
+/-- tex.rs:102-112 `SamplerRepeatPot::new` (after fix 597c789): the test is on the *integer* dimensions
+of the data, `let (w, h) = (data.width(), data.height()); assert!(w.is_power_of_two())`, masks `w - 1`,
+`h - 1`. -/
 def RepeatPot.new (t : Texture) : Outcome RepeatPot :=
+  if !isPow2 t.dw then .panic "width must be 2^n"
+  else if !isPow2 t.dh then .panic "height must be 2^n"
+  else .ok { wMask := t.dw - 1, hMask := t.dh - 1 }
+
+/-- The test as it was before 597c789, on the rounded `f32` fields: `let w = tex.width() as u32`.
+Kept only to state the repaired defect (`Props.C12.repeat_new_old_accepts_non_pot`). -/
+def RepeatPot.newViaF32 (t : Texture) : Outcome RepeatPot :=
   let w := toU32Sat t.w
   let h := toU32Sat t.h
   if !isPow2 w then .panic "width must be 2^n"
